@@ -105,6 +105,7 @@ func TestVerifReplay(t *testing.T) {
 	out["halted"] = c.halted
 	out["stopped"] = c.stopped
 	out["haltbug"] = c.haltbug
+	%(extraout)s
 	b, _ := json.Marshal(out)
 	os.WriteFile(os.Getenv("VERIF_REPLAY_OUT"), b, 0644)
 }
@@ -189,10 +190,11 @@ def replay_instruction(ctx, prop, ob, res, extra_setup=None):
             pred_writes.append({"Cycle": cyc, "Addr": addr, "Val": val})
             if addr not in watch:
                 watch.append(addr)
-    src = GO % {"setup": "\n\t".join(setup), "watch": ", ".join("0x%04x" % w for w in watch), "reads": ", ".join(reads), "rominit": "\n\t".join(rominit), "ninstr": int((ob.info or {}).get("ninstr", 1))}
+    src = GO % {"setup": "\n\t".join(setup), "watch": ", ".join("0x%04x" % w for w in watch), "reads": ", ".join(reads), "rominit": "\n\t".join(rominit), "ninstr": int((ob.info or {}).get("ninstr", 1)),
+                "extraout": "\n\t".join('out["%s"] = c.%s' % (nm, nm) for nm in extra)}
     rc, log, out = run_go_test(ctx, "github.com/scottyw/tetromino/gameboy/cpu", src)
     rep = {"inputs": dict(regs, ie=ie, iflag=iff, ime=ints["ime"], op=ob.info.get("op"), cb=ob.info.get("cb"),
-                          reads=[r for r in reads]),
+                          reads=[r for r in reads], **{fl: bool(mval(model, cc.fld(eng, pre, b, fl))) for fl in ["halted", "stopped", "haltbug"] + extra}),
            "go_rc": rc, "function": "(*cpu.CPU).ExecuteMachineCycle x%d" % n}
     if out is None:
         rep.update(status="error", log=log, go_test=src)
@@ -209,6 +211,11 @@ def replay_instruction(ctx, prop, ob, res, extra_setup=None):
         diffs["cycles"] = {"engine": n, "real": out["cycles"]}
     if out["ime"] != pred_ime:
         diffs["ime"] = {"engine": pred_ime, "real": out["ime"]}
+    for nm in extra:
+        pv = bool(mval(model, cc.fld(eng, s, b, nm)))
+        rep["engine"][nm] = pv
+        if nm in out and out[nm] != pv:
+            diffs[nm] = {"engine": pv, "real": out[nm]}
     # a write that stores the value already present is invisible to the snapshot: compare only visible ones
     realw = [(w["Cycle"], w["Addr"], w["Val"]) for w in (out.get("writes") or [])]
     for w in realw:
